@@ -4,6 +4,7 @@ import (
 	"fmt"
 	"go/token"
 	"go/types"
+	"math"
 	"sort"
 	"strings"
 
@@ -349,4 +350,343 @@ func storeIntoOwnAppendedTail(addr ssa.Value) bool {
 	}
 	g, ok := sliceGrowth(ia.X, 0, map[ssa.Value]bool{})
 	return ok && g >= k && g < 1<<39
+}
+
+func init() {
+	register(&Rule{
+		ID:    "C08.guardwidth",
+		Props: []string{"C08", "C04", "C07"},
+		Doc:   "a bound check in the binary decoders does its arithmetic wide: in the methods of wkbParser and twkbParser (and helpers introduced later that they call), no comparison has an operand that is a product, sum or shift computed in an explicitly sized integer type narrower than 64 bits from a non-constant value — `n*minElemSize > uint32(len(body))` wraps to 0 for n = 2^30 and lets a 32 GiB allocation through, where `uint64(n)*4 > uint64(len(body))` cannot",
+		Floor: 0,
+		Run:   runC08GuardWidth,
+	})
+}
+
+func runC08GuardWidth(c *Ctx) {
+	narrow := func(t types.Type) bool {
+		b, ok := t.Underlying().(*types.Basic)
+		if !ok {
+			return false
+		}
+		switch b.Kind() {
+		case types.Int8, types.Int16, types.Int32, types.Uint8, types.Uint16, types.Uint32:
+			return true
+		}
+		return false
+	}
+	seen := map[*ssa.Function]bool{}
+	var scope []*ssa.Function
+	for _, f := range c.P.Funcs {
+		if pkgOf(f) != "geom" || f.Blocks == nil {
+			continue
+		}
+		root := rootFunc(f)
+		if recv := root.Signature.Recv(); recv != nil {
+			switch namedName(recv.Type()) {
+			case "wkbParser", "twkbParser":
+				for _, g := range withHelpersAndLiterals(root) {
+					if !seen[g] {
+						seen[g] = true
+						scope = append(scope, g)
+					}
+				}
+			}
+		}
+	}
+	if len(scope) < 10 {
+		c.Errorf("only %d decoder functions found", len(scope))
+		return
+	}
+	n := 0
+	for _, f := range scope {
+		k := 0
+		eachInstr(f, func(in ssa.Instruction) {
+			cmp, ok := in.(*ssa.BinOp)
+			if !ok {
+				return
+			}
+			switch cmp.Op {
+			case token.LSS, token.LEQ, token.GTR, token.GEQ:
+			default:
+				return
+			}
+			n++
+			for _, o := range []ssa.Value{cmp.X, cmp.Y} {
+				ar, ok := o.(*ssa.BinOp)
+				if !ok || !narrow(ar.Type()) {
+					continue
+				}
+				switch ar.Op {
+				case token.MUL, token.ADD, token.SHL:
+				default:
+					continue
+				}
+				_, cx := ar.X.(*ssa.Const)
+				_, cy := ar.Y.(*ssa.Const)
+				if cx && cy {
+					continue
+				}
+				// a value already known to be small cannot wrap
+				if ub, has := valueUpperBound(ar.X, 0); has && ub < 1<<15 {
+					if ub2, has2 := valueUpperBound(ar.Y, 0); has2 && ub2 < 1<<15 {
+						continue
+					}
+				}
+				k++
+				c.Bad(cmp.Pos(), FuncName(f), fmt.Sprintf("narrow arithmetic in bound check #%d", k), fmt.Sprintf("the check compares %s computed in %s: for a count near 2^32 / the multiplier the result wraps around and the check passes, so the allocation or loop it guards is driven by an unchecked count (convert to uint64 before multiplying)", ar.Op, ar.Type()))
+			}
+		})
+	}
+	c.Triv(token.NoPos, "-", "summary", fmt.Sprintf("%d comparisons in %d decoder functions examined", n, len(scope)))
+}
+
+func init() {
+	register(&Rule{
+		ID:    "C12.newenvelope",
+		Props: []string{"C12"},
+		Doc:   "NewEnvelope interpreted on 0..3 points over every arrangement of their ordinates in {0,1,2}: no points give the empty envelope, otherwise the result is non-empty with min = per-axis minimum and max = per-axis maximum of the points — whatever the order the points come in (a fast path that takes two arguments for (min, max) after looking at X only is reported for an anti-diagonal pair)",
+		Floor: 1,
+		Run:   runC12NewEnvelope,
+	})
+}
+
+func runC12NewEnvelope(c *Ctx) {
+	f := c.P.Func("geom.NewEnvelope")
+	if f == nil {
+		c.Errorf("anchor geom.NewEnvelope does not resolve")
+		return
+	}
+	inl := map[string]bool{"geom.(Envelope).IsEmpty": true, "geom.fastMin": true, "geom.fastMax": true, "geom.newUncheckedEnvelope": true,
+		"geom.(Envelope).ExpandToIncludeXY": true, "geom.(Envelope).ExpandToIncludeEnvelope": true}
+	problem, undec := "", ""
+	models := 0
+	for n := 0; n <= 3 && problem == "" && undec == ""; n++ {
+		var keys []string
+		for i := 0; i < n; i++ {
+			keys = append(keys, fmt.Sprintf("P[%d].X", i), fmt.Sprintf("P[%d].Y", i))
+		}
+		k4enumerate(keys, []float64{0, 1, 2}, nil, func(m *Model) bool {
+			models++
+			m.Missing = map[string]bool{}
+			it := &k4interp{p: c.P, m: m, mem: map[string]k4val{}, inline: func(h *ssa.Function) bool { return inl[FuncName(h)] }}
+			for i := 0; i < n; i++ {
+				it.mem[fmt.Sprintf("P[%d]", i)] = k4val{kind: 3, s: fmt.Sprintf("P[%d]", i)}
+			}
+			res, err := it.call(f, []k4val{{kind: 8, s: "P", ln: n, cp: n}}, nil)
+			if err != nil || len(res) != 1 || res[0].kind != 3 {
+				undec = fmt.Sprintf("%v %v %s", err, res, missingList(m))
+				return false
+			}
+			out := res[0].s
+			ne := false
+			if out != "zero" {
+				v, err := it.lookup(out+".nonEmpty", boolT)
+				if err != nil {
+					undec = "non-empty flag of the result: " + missingList(m)
+					return false
+				}
+				ne = v.b
+			}
+			if n == 0 {
+				if ne {
+					problem = "NewEnvelope() of no points is not the empty envelope"
+				}
+				return problem == ""
+			}
+			if !ne {
+				problem = fmt.Sprintf("for %s the result is the empty envelope", modelString(m))
+				return false
+			}
+			w := [4]float64{math.Inf(1), math.Inf(1), math.Inf(-1), math.Inf(-1)}
+			for i := 0; i < n; i++ {
+				x, y := m.Num[fmt.Sprintf("P[%d].X", i)], m.Num[fmt.Sprintf("P[%d].Y", i)]
+				w[0], w[1], w[2], w[3] = math.Min(w[0], x), math.Min(w[1], y), math.Max(w[2], x), math.Max(w[3], y)
+			}
+			var gt [4]float64
+			for i, k := range []string{".min.X", ".min.Y", ".max.X", ".max.Y"} {
+				v, err := it.lookup(out+k, nil0)
+				if err != nil || v.kind != 2 {
+					undec = "bound " + k + " of the result: " + missingList(m)
+					return false
+				}
+				gt[i] = v.f
+			}
+			if gt != w {
+				problem = fmt.Sprintf("for %s the envelope is min (%v %v) max (%v %v), expected min (%v %v) max (%v %v): it does not contain its own control points", modelString(m), gt[0], gt[1], gt[2], gt[3], w[0], w[1], w[2], w[3])
+				return false
+			}
+			return true
+		})
+	}
+	reportK4(c, f, "envelope of a point list", undec, problem, fmt.Sprintf("empty for no points, per-axis min/max otherwise, in all %d models (0..3 points)", models))
+}
+
+func init() {
+	register(&Rule{
+		ID:    "C03.wkbnan",
+		Props: []string{"C03", "C04"},
+		Doc:   "the WKB point decoder takes NaN ordinates for the empty point only when BOTH X and Y are NaN, and builds a point only when NEITHER is: in wkbParser.parsePoint (and helpers introduced later), every non-error return that is reached under a math.IsNaN test of an ordinate is, when it hands back an empty point, dominated by IsNaN(X) and IsNaN(Y) both holding, and, when it builds a point from the ordinates, by both failing — `NaN 1` must be a syntax error, not POINT EMPTY, and must never reach NewPoint (which would put a NaN ordinate behind the validation gate)",
+		Floor: 0,
+		Run:   runC03WKBNaN,
+	})
+}
+
+func runC03WKBNaN(c *Ctx) {
+	f := c.P.Func("geom.(*wkbParser).parsePoint")
+	if f == nil {
+		c.Errorf("anchor geom.(*wkbParser).parsePoint does not resolve")
+		return
+	}
+	n := 0
+	for _, g := range withHelpersAndLiterals(f) {
+		k := 0
+		for _, r := range returnsOf(g) {
+			if len(r.Results) != 2 || !isNilConst(r.Results[1]) {
+				continue
+			}
+			// which NaN tests hold / fail on every path to this return
+			nan := map[string]map[bool]bool{}
+			for _, g0 := range guardsAt(r) {
+				for _, ge := range expandGuardDeep(g0) {
+					call, ok := ge.Cond.(*ssa.Call)
+					if !ok || calleeName(call) != "math.IsNaN" || len(call.Call.Args) != 1 {
+						continue
+					}
+					path, _ := accessPath(call.Call.Args[0])
+					ax := ""
+					switch {
+					case strings.HasSuffix(path, ".X"):
+						ax = "X"
+					case strings.HasSuffix(path, ".Y"):
+						ax = "Y"
+					default:
+						continue
+					}
+					if nan[ax] == nil {
+						nan[ax] = map[bool]bool{}
+					}
+					nan[ax][ge.Truth] = true
+				}
+			}
+			if len(nan) == 0 {
+				continue // not decided by a NaN test in this form
+			}
+			res := stripLoad(r.Results[0])
+			kind := ""
+			if call, ok := res.(*ssa.Call); ok {
+				switch nm := calleeName(call); {
+				case strings.HasSuffix(nm, "NewPoint") || strings.HasSuffix(nm, "NewPointXY") || strings.HasSuffix(nm, "newUncheckedPoint"):
+					kind = "point"
+				case strings.HasSuffix(nm, ").ForceCoordinatesType") || strings.HasSuffix(nm, "NewEmptyPoint"):
+					kind = "empty"
+				}
+			}
+			if kind == "" {
+				continue
+			}
+			n++
+			k++
+			construct := fmt.Sprintf("%s returned under NaN tests #%d", kind, k)
+			switch kind {
+			case "empty":
+				c.Check(nan["X"][true] && nan["Y"][true], r.Pos(), FuncName(g), construct, "reached only when X and Y are both NaN", "the empty point is returned without both IsNaN(X) and IsNaN(Y) holding: a point with one NaN ordinate (NaN 1) decodes to POINT EMPTY instead of being rejected, and the finite ordinate is silently lost")
+			case "point":
+				c.Check(nan["X"][false] && nan["Y"][false], r.Pos(), FuncName(g), construct, "reached only when neither X nor Y is NaN", "a point is built from the ordinates without both IsNaN(X) and IsNaN(Y) having failed: a NaN ordinate can reach the constructor")
+			}
+		}
+	}
+	if n < 2 {
+		// the tests may have moved to a place this rule does not follow (a classifying
+		// helper, say): say so rather than guess; with no NaN test left at all the
+		// decoder cannot tell the empty point from a position
+		tests := 0
+		for _, g := range withHelpersAndLiterals(f) {
+			tests += len(callsTo(g, "math.IsNaN"))
+		}
+		if tests == 0 {
+			c.Errorf("the WKB point decoder has no math.IsNaN test left: NaN NaN (the empty point) and mixed NaN input are not told apart")
+		} else {
+			c.Triv(f.Pos(), FuncName(f), "NaN handling", fmt.Sprintf("not judged in this form: %d NaN-guarded returns recognised, %d math.IsNaN tests present", n, tests))
+		}
+	}
+}
+
+func init() {
+	register(&Rule{
+		ID:    "C06.noreuse",
+		Props: []string{"C06", "C10", "C04"},
+		Doc:   "a decode-into adapter never builds its result in the storage of the value the receiver held before: in the pointer-receiver methods UnmarshalJSON / UnmarshalText / UnmarshalBinary / Scan of geom (with literals and later helpers), no slice expression re-slices memory read through the receiver (`(*c)[:0]` to \"save an allocation\") — a copy the caller kept from an earlier decode would be overwritten by the next one",
+		Floor: 0,
+		Run:   runC06NoReuse,
+	})
+}
+
+func runC06NoReuse(c *Ctx) {
+	adapters := 0
+	for _, f := range c.P.Funcs {
+		if pkgOf(f) != "geom" || f.Parent() != nil || f.Blocks == nil || f.Signature.Recv() == nil {
+			continue
+		}
+		switch f.Name() {
+		case "UnmarshalJSON", "UnmarshalText", "UnmarshalBinary", "Scan":
+		default:
+			continue
+		}
+		if _, isPtr := f.Signature.Recv().Type().(*types.Pointer); !isPtr {
+			continue
+		}
+		adapters++
+		recv := f.Params[0]
+		k := 0
+		// only the adapter itself and its literals see the receiver as `recv`
+		for _, g := range append([]*ssa.Function{f}, allAnon(f)...) {
+			eachInstr(g, func(in ssa.Instruction) {
+				sl, ok := in.(*ssa.Slice)
+				if !ok {
+					return
+				}
+				if _, isSlice := sl.X.Type().Underlying().(*types.Slice); !isSlice {
+					return
+				}
+				base, _ := baseObject(sl.X)
+				if fv, isFV := base.(*ssa.FreeVar); isFV {
+					if b := closureBinding(fv); b != nil {
+						base, _ = baseObject(b)
+					}
+				}
+				if base != ssa.Value(recv) {
+					return
+				}
+				k++
+				c.Bad(sl.Pos(), FuncName(g), fmt.Sprintf("re-slice of the receiver's previous value #%d", k), "the adapter re-slices the slice its receiver held before the call and decodes into that storage: a copy of the earlier result that the caller kept shares the backing array and is overwritten by this decode")
+			})
+		}
+	}
+	if adapters < 5 {
+		c.Errorf("only %d decode-into adapters found", adapters)
+		return
+	}
+	c.Triv(token.NoPos, "-", "summary", fmt.Sprintf("%d decode-into adapters examined", adapters))
+}
+
+// closureBinding: the value bound to a free variable where its closure is made.
+func closureBinding(fv *ssa.FreeVar) ssa.Value {
+	fn := fv.Parent()
+	par := fn.Parent()
+	if par == nil {
+		return nil
+	}
+	idx := -1
+	for i, v := range fn.FreeVars {
+		if v == fv {
+			idx = i
+		}
+	}
+	var out ssa.Value
+	eachInstr(par, func(in ssa.Instruction) {
+		if mc, ok := in.(*ssa.MakeClosure); ok && mc.Fn == fn && idx >= 0 && idx < len(mc.Bindings) {
+			out = mc.Bindings[idx]
+		}
+	})
+	return out
 }
